@@ -143,6 +143,20 @@ def run(ctx):
         d = rm.run_method(ctx, m, 'idle')
         check_idle(res, cd, d, m, '%s (idle)' % m.qualname, fields, tl=False)
 
+    # ---- C09.f nothing consumable is prepared once at decoration time and shared by all calls of the decorated function
+    from . import common as _cm9
+    cfz = res.clause('C09.f', 'R-PROV', 'decorator closures capture no one-shot iterator prepared at decoration time', floor=3)
+    for kind in ('operation', 'input', 'output'):
+        fac, deco, cl = roles.closures[kind]
+        caps = []
+        for outer in (fac, deco):
+            caps.extend((outer, x) for x in _cm9.one_shot_captures(outer.node, cl.node))
+        cfz.instance('%s decorator: the closure reads no lazily consumed iterator of its factory' % kind, cl.qualname, not caps)
+        cfz.evaluations += 1
+        for outer, (n, nm, what) in caps[:1]:
+            res.add(Finding('C09', 'C09.f', 'R-PROV', outer.file, outer.qualname, n.lineno, '%s = %s' % (nm, what),
+                            '`%s` is a one-shot iterator (%s) created once when the function is decorated and read by every call: the first call '
+                            'consumes it, so later runs on this recorder behave differently from the first (and from a fresh process)' % (nm, what)))
     # ---- C09.e the per-run fields proved idle above are all the state a run can leave on the recorder
     from . import common
     ce = res.clause('C09.e', 'R-WHOCALLS', 'outside the constructor the recorder writes only the per-run fields (proved idle) and the enabled switch', floor=4)
@@ -163,6 +177,10 @@ def run(ctx):
             for n, w in common.instance_writes(f.node):
                 fld = w.split('self.')[1].split(' ')[0].split('.')[0].split('(')[0]
                 ok = fld in per_run or (tl is not None and fld == tl) or fld in roles.cls.setters      # a property: its setter is examined itself
+                if 'an attribute of the object' in w:
+                    # writing *into* the object a field refers to: only the thread-local store is the recorder's own; the parameters object is
+                    # the per-class one shared by all later runs, the recordings belong to the cassette
+                    ok = tl is not None and fld == tl
                 # class-level configuration registered by decorators at import time (recording parameters per class)
                 if not ok and w.startswith('an entry of') and any(isinstance(x, ast.Name) and x.id in f.all_param_names for x in ast.walk(n)) and \
                         f.qualname.split('.')[1] not in (roles.play.name, roles.start.name):
